@@ -7,6 +7,7 @@ from .cmp_pres import verdict
 ORACLES = {
     "C02": {"forgery_rejected", "forge_control_accepted", "unanswered_request_rejected"},
     "C03": {"cheating_predicate_rejected", "forge_control_accepted"},
+    "C11": {"common_attribute_enforced"},
     "C20": {"verify_no_panic"},
 }
 
@@ -34,13 +35,19 @@ def cmp_forge(prop, case, model, mat, F, variant, final):
             F.oracle_failure("forge_control_accepted", "%s: the real verifier does not accept the honest control of the forging machinery: %s" % (case["id"], info), case, variant)
     else:
         if vi == "accept":
-            if kind == "unit_e" and prop == "C02":
-                F.oracle_failure("forgery_rejected", "%s: a proof assembled from the public key alone (unit exponent, mask of %s bits, response for e of %s bits) was ACCEPTED by the real verifier" %
-                                 (case["id"], case["class"].get("e_tilde_bits"), model.get("e_bits")), case, variant)
-            if kind == "unlinked" and prop in ("C03", "C02"):
-                F.oracle_failure("cheating_predicate_rejected" if prop == "C03" else "forgery_rejected",
-                                 "%s: a predicate proven about a made-up value (response not linked to the credential attribute, layout %s) was ACCEPTED by the real verifier" %
-                                 (case["id"], case["class"].get("layout")), case, variant)
+            # every non-control document of this stream is a forgery: accepted = the property fails
+            what = {"unit_e": "a proof assembled from the public key alone (unit exponent, mask of %s bits, response for e of %s bits)" % (case["class"].get("e_tilde_bits"), model.get("e_bits")),
+                    "zero_a_prime": "a proof assembled from public data alone with A' = %s (T-hat collapses to 0, challenge = hash of public data)" % case["class"].get("which"),
+                    "unlinked": "a predicate proven about a made-up value (response not linked to the credential attribute, layout %s)" % case["class"].get("layout"),
+                    "duplicate_predicate": "a repeated predicate proof standing in for a requested predicate that is false of the credential",
+                    "split_hidden": "a hidden value split into a hidden part and an unrequested revealed entry for '%s' (the credential's value is not what was proven)" % case["class"].get("attr"),
+                    }.get(kind, "a forged document (%s)" % kind)
+            if prop == "C02":
+                F.oracle_failure("forgery_rejected", "%s: %s was ACCEPTED by the real verifier" % (case["id"], what), case, variant)
+            elif prop == "C03" and kind in ("unlinked", "duplicate_predicate"):
+                F.oracle_failure("cheating_predicate_rejected", "%s: %s was ACCEPTED by the real verifier" % (case["id"], what), case, variant)
+            elif prop == "C11" and kind == "split_hidden" and case["class"].get("attr") == "master_secret":
+                F.oracle_failure("common_attribute_enforced", "%s: %s was ACCEPTED by the real verifier: the link secret proven is not the credential's" % (case["id"], what), case, variant)
         if vi == "panic" and prop == "C20":
             F.oracle_failure("verify_no_panic", "%s: the real verifier panicked on a forged document: %s" % (case["id"], info), case, variant)
     if (vi == "accept") != (vm == "accept"):
